@@ -89,6 +89,9 @@ struct bufferevent_filtered {
 	/** True iff we have received an EOF callback from the underlying
 	 * bufferevent. */
 	unsigned got_eof;
+	/** True while the input filter is running: whatever the filter's
+	 * writes to our input buffer trigger must not run it again. */
+	unsigned processing_input;
 
 	/** Function to free context when we're done. */
 	void (*free_context)(void *);
@@ -312,6 +315,17 @@ be_filter_process_input(struct bufferevent_filtered *bevf,
 			return BEV_OK;
 	}
 
+	/* The filter adds to our input buffer, and the callbacks on that buffer
+	 * (watermark suspend/unsuspend, resume-on-drain) can lead straight
+	 * back here.  A nested run would use up the room that the limit below
+	 * was computed from, and the outer run would then overshoot the read
+	 * high-watermark: let the outer run carry on instead. */
+	if (bevf->processing_input)
+		return BEV_OK;
+	bevf->processing_input = 1;
+	evbuffer_cb_clear_flags(bev->input, bevf->inbuf_cb,
+	    EVBUFFER_CB_ENABLED);
+
 	do {
 		ev_ssize_t limit = -1;
 		if (state == BEV_NORMAL && bev->wm_read.high)
@@ -327,6 +341,7 @@ be_filter_process_input(struct bufferevent_filtered *bevf,
 		 (bev->enabled & EV_READ) &&
 		 evbuffer_get_length(bevf->underlying->input) &&
 		 !be_readbuf_full(bevf, state));
+	bevf->processing_input = 0;
 
 	if (*processed_out)
 		BEV_RESET_GENERIC_READ_TIMEOUT(bev);
